@@ -1,0 +1,117 @@
+//! Verification hook (feature `verif_hooks`, off by default).
+//!
+//! Copies the final state graph that code generation consumes into plain data
+//! so that an external harness can inspect it. Nothing in here influences the
+//! generated code.
+
+use std::cell::RefCell;
+
+use crate::graph::{Graph, GraphError};
+
+/// Plain-data copy of one graph state.
+#[derive(Clone, Debug, Default, PartialEq, Eq)]
+pub struct CapturedState {
+    /// Leaf recorded with the match ending before the most recently read byte.
+    pub accept: Option<usize>,
+    /// Leaf recorded with the match ending after the most recently read byte.
+    pub early: Option<usize>,
+    /// Byte transitions: inclusive byte ranges and target state index.
+    pub normal: Vec<(Vec<(u8, u8)>, usize)>,
+    /// End of input transition.
+    pub eoi: Option<usize>,
+}
+
+/// Plain-data copy of one leaf (pattern).
+#[derive(Clone, Debug, Default, PartialEq, Eq)]
+pub struct CapturedLeaf {
+    pub priority: usize,
+    /// `Display` of the variant kind (`::Name`, `::Name(_)`, `::<skip>`).
+    pub kind: String,
+    /// `Display` of the pattern (`#[token(..)]` / `#[regex(..)]`).
+    pub pattern: String,
+    pub has_callback: bool,
+}
+
+/// Plain-data copy of a graph error.
+#[derive(Clone, Debug, PartialEq, Eq)]
+pub enum CapturedError {
+    NoUniversalStart,
+    EmptyMatch(usize),
+    Disambiguation(Vec<usize>),
+}
+
+/// Plain-data copy of the graph.
+#[derive(Clone, Debug, Default, PartialEq, Eq)]
+pub struct CapturedGraph {
+    pub utf8: bool,
+    pub root: usize,
+    pub states: Vec<CapturedState>,
+    pub leaves: Vec<CapturedLeaf>,
+    pub errors: Vec<CapturedError>,
+}
+
+thread_local! {
+    static LAST: RefCell<Option<CapturedGraph>> = const { RefCell::new(None) };
+}
+
+/// Take the graph captured by the most recent `generate()` call on this thread.
+pub fn take() -> Option<CapturedGraph> {
+    LAST.with(|last| last.borrow_mut().take())
+}
+
+/// Forget any captured graph.
+pub fn clear() {
+    LAST.with(|last| *last.borrow_mut() = None);
+}
+
+pub(crate) fn capture(graph: &Graph, utf8: bool) {
+    let states = graph
+        .iter_states()
+        .map(|state| {
+            let data = graph.get_state(state);
+            CapturedState {
+                accept: data.state_type.accept.map(|leaf| leaf.0),
+                early: data.state_type.early.map(|leaf| leaf.0),
+                normal: data
+                    .normal
+                    .iter()
+                    .map(|(bc, next)| {
+                        (
+                            bc.ranges.iter().map(|r| (*r.start(), *r.end())).collect(),
+                            next.index(),
+                        )
+                    })
+                    .collect(),
+                eoi: data.eoi.map(|next| next.index()),
+            }
+        })
+        .collect();
+    let leaves = graph
+        .leaves()
+        .iter()
+        .map(|leaf| CapturedLeaf {
+            priority: leaf.priority,
+            kind: leaf.kind.to_string(),
+            pattern: leaf.pattern.to_string(),
+            has_callback: leaf.callback.is_some(),
+        })
+        .collect();
+    let errors = graph
+        .errors()
+        .map(|error| match error {
+            GraphError::NoUniversalStart => CapturedError::NoUniversalStart,
+            GraphError::EmptyMatch(leaf) => CapturedError::EmptyMatch(leaf.0),
+            GraphError::Disambiguation(leaves) => {
+                CapturedError::Disambiguation(leaves.iter().map(|leaf| leaf.0).collect())
+            }
+        })
+        .collect();
+    let captured = CapturedGraph {
+        utf8,
+        root: graph.root().index(),
+        states,
+        leaves,
+        errors,
+    };
+    LAST.with(|last| *last.borrow_mut() = Some(captured));
+}
